@@ -1,0 +1,94 @@
+//go:build verif
+
+// Contracts for the gvc verifier (see /verif/DESIGN.md). Comment-only file: it adds no code.
+package rangeproof
+
+//@ implementers SquareSplitter: *FourSquaresSplitter, *SquaresTable
+
+//@ # est(p, m): what a verified range proof establishes about the hidden attribute m
+//@ pred est(p, m) := p.Sign * (p.A * m - val(p.K)) >= 0
+//@ pred estS(s, m) := s.sign * (s.a * m - val(s.k)) >= 0
+//@ pred okdescr(p) := (p.Sign == 1 || p.Sign == 0 - 1) && (len(p.Cs) == 3 ==> p.A == 4)
+
+//@ func (*FourSquaresSplitter).SquareCount
+//@   property C13 C12
+//@   ensures four: result == 4
+//@   modifies nothing
+//@ func (*FourSquaresSplitter).Ld
+//@   property C13 C12
+//@   ensures ld: result == 128
+//@   modifies nothing
+//@ func (*SquaresTable).SquareCount
+//@   property C13 C12
+//@   ensures three: result == 3
+//@   modifies nothing
+
+//@ func (*SquaresTable).Ld
+//@   property C13 C12
+//@   requires t != nil
+//@   modifies nothing
+
+//@ func (StatementType).Sign
+//@   property C13 C12
+//@   ensures ge: typ == 0 ==> result0 == 1 && err == nil
+//@   ensures le: typ == 1 ==> result0 == 0 - 1 && err == nil
+//@   ensures other: typ != 0 && typ != 1 ==> err != nil
+//@   modifies nothing
+
+//@ func (*Proof).ProvesStatement
+//@   property C12
+//@   requires p != nil && p.K != nil && bound != nil
+//@   ensures sound: result ==> forall m: int :: est(p, m) ==> sign * (factor * m - val(bound)) >= 0
+//@   ensures signs: result ==> (sign == 1 || sign == 0 - 1) && p.Sign == sign
+//@   modifies nothing
+//@   mustfail canary: !result
+
+//@ func (*Proof).Proves
+//@   property C12
+//@   requires p != nil && p.K != nil && statement != nil && statement.Bound != nil
+//@   ensures sound: result ==> forall m: int :: est(p, m) ==> statement.Sign * (statement.Factor * m - val(statement.Bound)) >= 0
+//@   modifies nothing
+
+//@ func (*Proof).ProvenStatement
+//@   property C12
+//@   requires p != nil && p.K != nil && okdescr(p)
+//@   ensures ge: result0 == 0 ==> p.Sign == 1 && forall m: int :: est(p, m) ==> result1 * m >= val(result2)
+//@   ensures le: result0 == 1 ==> p.Sign == 0 - 1 && forall m: int :: est(p, m) ==> result1 * m <= val(result2)
+//@   ensures typ: result0 == 0 || result0 == 1
+//@   ensures fresh: fresh(result2)
+//@   modifies nothing
+
+//@ func newWithParams
+//@   property C12 C13 C08
+//@   requires k != nil && nSplit >= 0
+//@   ensures sign: err == nil ==> (sign == 1 || sign == 0 - 1) && nSplit <= 4
+//@   ensures copy: err == nil ==> result0 != nil && fresh(result0) && result0.sign == sign && result0.a == a && result0.index == index && result0.ld == ld && val(result0.k) == val(k) && result0.k != k && len(result0.cRep) == nSplit
+//@   ensures exponent: err == nil ==> len(result0.mCorrect.Rhs) == 2 + nSplit && (sign == 1 ==> result0.mCorrect.Rhs[1].Power == 0 - a) && (sign == 0 - 1 ==> result0.mCorrect.Rhs[1].Power == a)
+//@   ensures lhs: err == nil ==> len(result0.mCorrect.Lhs) == 1 && val(result0.mCorrect.Lhs[0].Power) == 0 - sign * val(k)
+//@   ensures fail: err != nil ==> result0 == nil
+//@   modifies nothing
+//@   assumeframe constructor: the loop appends to slices it allocated itself; the loop frame inference cannot see that the appended-to arrays are not caller-visible
+//@   loop 0 invariant 0 <= $i && $i < nSplit && len(result.cRep) == $i && len(result.mCorrect.Rhs) == 2 + $i
+//@   loop 0 invariant (sign == 1 ==> result.mCorrect.Rhs[1].Power == wrapI64(0 - wrapI64(a))) && (sign == 0 - 1 ==> result.mCorrect.Rhs[1].Power == wrapI64(a))
+//@   loop 0 invariant result != nil && fresh(result) && result.sign == sign && result.a == a && result.index == index && result.ld == ld && len(result.mCorrect.Lhs) == 1 && val(result.mCorrect.Lhs[0].Power) == 0 - sign * val(k) && result.k != nil && result.k != k && val(result.k) == val(k)
+//@   mustfail canary: err != nil
+
+//@ func NewProofStructure
+//@   property C13
+//@   requires bound != nil && (splitter == nil || splitter is *FourSquaresSplitter || (splitter is *SquaresTable && splitter.(*SquaresTable) != nil))
+//@   ensures equiv4: err == nil && !(splitter is *SquaresTable) ==> result0 != nil && forall m: int :: estS(result0, m) <==> sign * (factor * m - val(bound)) >= 0
+//@   ensures equiv3ge: err == nil && splitter is *SquaresTable && sign == 1 ==> result0 != nil && forall m: int :: estS(result0, m) <==> sign * (factor * m - val(bound)) >= 0
+//@   ensures equiv3le: err == nil && splitter is *SquaresTable && sign == 0 - 1 ==> result0 != nil && forall m: int :: estS(result0, m) <==> sign * (factor * m - val(bound)) >= 0
+//@   ensures onlysigns: err == nil ==> sign == 1 || sign == 0 - 1
+//@   ensures sign: err == nil ==> result0.sign == sign && result0.index == index
+//@   modifies nothing
+//@   mustfail canary: err != nil
+
+//@ func (*Proof).ExtractStructure
+//@   property C12 C08
+//@   requires p != nil && g != nil && g.Params != nil
+//@   ensures limits: err == nil ==> p.K != nil && p.Ld <= g.Params.Lm && (len(p.Cs) == 3 || len(p.Cs) == 4) && bitlen(val(p.K)) <= g.Params.Lm + 64 && okdescr(p)
+//@   ensures copy: err == nil ==> result0 != nil && result0.sign == p.Sign && result0.a == p.A && val(result0.k) == val(p.K) && result0.ld == p.Ld && result0.index == index && len(result0.cRep) == len(p.Cs)
+//@   ensures nowrap: err == nil ==> (p.Sign == 1 ==> result0.mCorrect.Rhs[1].Power == 0 - p.A) && (p.Sign == 0 - 1 ==> result0.mCorrect.Rhs[1].Power == p.A)
+//@   modifies nothing
+//@   mustfail canary: err != nil
